@@ -194,6 +194,9 @@ func (m *AMem) bump(path string) {
 	m.ver[strings.TrimSuffix(path, "[")]++
 }
 
+// IsFresh reports that the object was allocated by the analysed code on this path.
+func (m *AMem) IsFresh(path string) bool { return m.isFresh(path) }
+
 // Untouched reports that the analysed code never wrote below base (nor handed it to a callee that may).
 func (m *AMem) Untouched(base string) bool {
 	if _, ok := m.Seqs[base]; ok {
@@ -692,6 +695,9 @@ type Exec struct {
 	// OnCall, when it returns handled, replaces the call by ret (the rule's summary) and the
 	// call is recorded in the trace.
 	OnCall func(ev *AEvent, st *AMem) (ret AVal, handled bool)
+	// Observe sees every call (callee name, abstract arguments, memory before the call), whether
+	// it is then entered, summarised or left opaque.
+	Observe func(ev *AEvent)
 	// ReadOnly names opaque callees that do not write through their arguments.
 	ReadOnly  func(name string) bool
 	MaxStates int
@@ -2495,6 +2501,9 @@ func (ex *Exec) call(s *astate, fr *aframe, x *ssa.Call) (bool, error) {
 	if b, ok := x.Call.Value.(*ssa.Builtin); ok {
 		fr.env[x] = ex.builtin(s, fr, x, b.Name(), args)
 		return false, nil
+	}
+	if ex.Observe != nil {
+		ex.Observe(&AEvent{Callee: name, Fn: callee, Args: args, Mem: s.mem, Site: x, Index: len(s.trace)})
 	}
 	if ex.OnCall != nil {
 		ev := &AEvent{Callee: name, Fn: callee, Args: args, Mem: s.mem.clone(), Site: x, Conds: append([]string(nil), s.conds...), Facts: map[string][2]uint64{}, Index: len(s.trace)}
